@@ -45,6 +45,16 @@ func genCred(r *Rng, allowEmpty bool) string {
 	if r.Chance(5) {
 		return specialCreds[r.Intn(len(specialCreds))]
 	}
+	if r.Chance(4) {
+		// long secrets (tokens, pass phrases): command lines and log records beyond 512 and 4096 octets
+		n := []int{300, 385, 400, 600, 1000, 5000}[r.Intn(6)]
+		var sb strings.Builder
+		for sb.Len() < n {
+			sb.WriteString(credAtoms[r.Intn(len(credAtoms))])
+			sb.WriteString("-long-secret-")
+		}
+		return sb.String()[:n]
+	}
 	if r.Chance(6) {
 		// strings the PRECIS OpaqueString profile changes although they are plain Latin-1 / look harmless:
 		// non-ASCII blanks become U+0020, compatibility forms stay, decomposed letters are composed
@@ -228,6 +238,7 @@ func init() {
 			// restarts on one Auth object (both tiers)
 			seqs = append(seqs, scramRestartSeqs...)
 			seqs = append(seqs, scramRedialSeqs...)
+			seqs = append(seqs, scramLongSeqs()...)
 			for _, mech := range []string{"SCRAM-SHA-256", "SCRAM-SHA-1"} {
 				for _, seq := range seqs {
 					if !c.Thorough() && mech == "SCRAM-SHA-1" && len(seq) == 3 {
@@ -493,6 +504,22 @@ var scramRestartSeqs = [][]string{
 	{"empty", "first", "final", "first-foreign", "final-bad", "235"},
 
 	{"empty", "first", "empty", "first-trunc", "final-bad", "235"},
+}
+
+// long exchanges: a server that restarts the exchange again and again (empty challenges) and then refuses, sends
+// junk or a forged signature; a loop bound in the client must not turn the end of its patience into success
+func scramLongSeqs() [][]string {
+	var out [][]string
+	for _, n := range []int{15, 16, 17, 32, 100} {
+		for _, tail := range [][]string{{"535"}, {"junk"}, {"final-empty", "235"}, {"first-foreign"}, {"first", "final", "235"}} {
+			seq := make([]string, 0, n+len(tail))
+			for k := 0; k < n; k++ {
+				seq = append(seq, "empty")
+			}
+			out = append(out, append(seq, tail...))
+		}
+	}
+	return out
 }
 
 // the same Client dials again ("|"): nothing of the finished exchange is good for the next connection (C15 only:
